@@ -1113,6 +1113,62 @@ func reachGame(f *ssa.Function, target ssa.Instruction, mode func(b *ssa.BasicBl
 // reachGameFrom: the same game, started at block start instead of the function entry.
 func reachGameFrom(f *ssa.Function, start *ssa.BasicBlock, target ssa.Instruction, mode func(b *ssa.BasicBlock) int) bool {
 	win := map[*ssa.BasicBlock]bool{target.Block(): true}
+	// a branch that only decides whether a loop goes round once more (the loop does not contain the target) is not a
+	// condition on the target: the loop is left eventually (termination is not this query's business), so one
+	// successor suffices there
+	canReach := func(from, to *ssa.BasicBlock) bool {
+		seen := map[*ssa.BasicBlock]bool{}
+		stack := append([]*ssa.BasicBlock{}, from.Succs...)
+		for len(stack) > 0 {
+			b := stack[len(stack)-1]
+			stack = stack[:len(stack)-1]
+			if b == to {
+				return true
+			}
+			if seen[b] || b == target.Block() {
+				continue
+			}
+			seen[b] = true
+			stack = append(stack, b.Succs...)
+		}
+		return false
+	}
+	plainReach := func(from, to *ssa.BasicBlock) bool {
+		seen := map[*ssa.BasicBlock]bool{}
+		stack := append([]*ssa.BasicBlock{}, from.Succs...)
+		for len(stack) > 0 {
+			b := stack[len(stack)-1]
+			stack = stack[:len(stack)-1]
+			if b == to {
+				return true
+			}
+			if seen[b] {
+				continue
+			}
+			seen[b] = true
+			stack = append(stack, b.Succs...)
+		}
+		return false
+	}
+	loopBranch := map[*ssa.BasicBlock]bool{}
+	for _, b := range f.Blocks {
+		// (a branch inside a loop that also contains the target - `if c { continue }` before the target - is a
+		// condition on the target, not a loop test)
+		if len(b.Succs) == 2 && b != target.Block() && !plainReach(target.Block(), b) {
+			// exactly one successor leads back to b without passing the target: a loop test
+			back0, back1 := b.Succs[0] == b || canReach(b.Succs[0], b), b.Succs[1] == b || canReach(b.Succs[1], b)
+			if back0 != back1 {
+				loopBranch[b] = true
+			}
+		}
+	}
+	userMode := mode
+	mode = func(b *ssa.BasicBlock) int {
+		if loopBranch[b] {
+			return gameAny
+		}
+		return userMode(b)
+	}
 	for changed := true; changed; {
 		changed = false
 		for _, b := range f.Blocks {
